@@ -165,6 +165,22 @@ class Conformance:
                     plain = {"__itruediv__": ("__idiv__", "__truediv__", "__div__"), "__idiv__": ("__truediv__", "__div__")}.get(meth, (meth.replace("__i", "__", 1),))
                     if v.func.attr in plain or v.func.attr == meth.replace("__i", "__", 1):
                         ok = True
+        if not ok:
+            # semantic form: for a number operand the in-place method returns what the plain operator returns (helpers that
+            # validate the operand, early raises and similar restructurings do not matter)
+            plain_ = meth.replace("__i", "__", 1)
+            cands = {"__itruediv__": ("__truediv__", "__div__"), "__idiv__": ("__div__", "__truediv__")}.get(meth, (plain_,))
+            nb = T.sym("NUM_B")
+            ri = [r for r in self.eval(meth, nb) if r[0] == "ret"]
+            for pm in cands:
+                if not self.has(pm):
+                    continue
+                rp = [r for r in self.eval(pm, nb) if r[0] == "ret"]
+                if ri and rp and len(ri) == len(rp) and all(
+                        a_[2] is not None and b_[2] is not None and a_[2][0] == b_[2][0]
+                        and self.value_eq(a_[2][1] if a_[2][0] in ("angle", "epoch") else a_[2], b_[2][1] if b_[2][0] in ("angle", "epoch") else b_[2])
+                        for a_, b_ in zip(ri, rp)):
+                    ok = True
         # no store to the object's own field
         stores = [n for n in ast.walk(fn) if isinstance(n, ast.Attribute) and isinstance(n.ctx, ast.Store)]
         if ok and not stores:
